@@ -83,7 +83,50 @@ Proof.
   - intros ch Hin. apply in_app_iff in Hin as [Hin|[<-|[]]]; [now apply Hk|]. unfold keep. now rewrite Ei.
 Qed.
 
+(* the candidates *)
+Lemma append_named_app c a b : append_named c (a ++ b) = append_named (append_named c a) b.
+Proof.
+  revert c. induction a as [|x a IH]; intros c; [reflexivity|]. cbn [app append_named].
+  destruct (str_in (last_of x) INTRINSICS && negb (existsb (list_eqb str_eqb x) c)); apply IH.
+Qed.
+
+Lemma append_named_old c new ch : In ch c -> In ch (append_named c new).
+Proof.
+  revert c. induction new as [|x new IH]; intros c H; [exact H|]. cbn [append_named].
+  destruct (str_in (last_of x) INTRINSICS && negb (existsb (list_eqb str_eqb x) c)); apply IH; [|exact H].
+  apply in_or_app. now left.
+Qed.
+
+Lemma append_named_in c new ch : In ch (append_named c new) -> In ch c \/ (In ch new /\ keep ch = false).
+Proof.
+  revert c. induction new as [|x new IH]; intros c H; [now left|]. cbn [append_named] in H.
+  destruct (str_in (last_of x) INTRINSICS) eqn:Ei; cbn [andb] in H.
+  - destruct (existsb (list_eqb str_eqb x) c); cbn [negb] in H.
+    + destruct (IH c H) as [H1|[H1 H2]]; [now left|right; split; [now right|exact H2]].
+    + destruct (IH _ H) as [H1|[H1 H2]].
+      * apply in_app_iff in H1 as [H1|[<-|[]]]; [now left|]. right. split; [now left|]. unfold keep. now rewrite Ei.
+      * right. split; [now right|exact H2].
+  - destruct (IH c H) as [H1|[H1 H2]]; [now left|right; split; [now right|exact H2]].
+Qed.
+
+Lemma append_named_cover c new ch : In ch new -> keep ch = false -> In ch (append_named c new).
+Proof.
+  revert c. induction new as [|x new IH]; intros c H Hk; [contradiction|]. cbn [append_named].
+  destruct H as [->|H].
+  - unfold keep in Hk. apply negb_false_iff in Hk. rewrite Hk. cbn [andb].
+    destruct (existsb (list_eqb str_eqb ch) c) eqn:Ec; cbn [negb].
+    + apply append_named_old. now apply chain_in_In.
+    + apply append_named_old, in_or_app. right. now left.
+  - destruct (str_in (last_of x) INTRINSICS && negb (existsb (list_eqb str_eqb x) c)); now apply IH.
+Qed.
+
 (* ------------------------------------------------------------------ the cascade *)
+Fixpoint run_lines_gen (upd : appender) (st : assocs * list chain) (lines : list str) : option (assocs * list chain) :=
+  match lines with
+  | [] => Some st
+  | x :: rest => match line_step_gen upd st x with Some st' => run_lines_gen upd st' rest | None => None end
+  end.
+
 Fixpoint run_lines (st : assocs * list chain) (lines : list str) : option (assocs * list chain) :=
   match lines with
   | [] => Some st
@@ -96,6 +139,18 @@ Proof.
   unfold stmt_step. destruct (line_step st (mask_quotes x)); [apply IH|reflexivity].
 Qed.
 
+Lemma run_lines_eq st lines : run_lines st lines = run_lines_gen append_calls st lines.
+Proof.
+  revert st. induction lines as [|x lines IH]; intros st; [reflexivity|]. cbn [run_lines run_lines_gen].
+  change (line_step st x) with (line_step_gen append_calls st x). destruct (line_step_gen append_calls st x); [apply IH|reflexivity].
+Qed.
+
+Lemma run_named_lines st srcs : run_named st srcs = run_lines_gen append_named st (map mask_quotes srcs).
+Proof.
+  revert st. induction srcs as [|x srcs IH]; intros st; [reflexivity|]. cbn [run_named map run_lines_gen].
+  destruct (line_step_gen append_named st (mask_quotes x)); [apply IH|reflexivity].
+Qed.
+
 Lemma raw_calls_subst (a : assocs) line : raw_calls a line = subst_chains a (map norm_chain (chain_texts line)).
 Proof.
   unfold raw_calls, subst_chains. induction (chain_texts line) as [|x l IH]; [reflexivity|].
@@ -103,47 +158,53 @@ Proof.
 Qed.
 
 (* one statement of the unit under the associations [a] in force *)
-Lemma line_step_stmt (a : assocs) st calls : wf_stmt st = true -> plain_ok st = true -> step_ok st = true ->
+Lemma line_step_stmt_gen (upd : appender) (a : assocs) st calls : (forall c, upd c [] = c) ->
+  wf_stmt st = true -> plain_ok st = true -> step_ok st = true ->
   (st = SEndAssoc -> a <> []) ->
-  line_step (a, calls) (render_stmt st) = Some (env_after a st, append_calls calls (subst_chains a (unit_chains st))).
+  line_step_gen upd (a, calls) (render_stmt st) = Some (env_after a st, upd calls (subst_chains a (unit_chains st))).
 Proof.
-  intros Hwf Hplain Hstep Hend. unfold unit_chains.
+  intros Hnil Hwf Hplain Hstep Hend. unfold unit_chains.
   assert (Hseg : seg_stmt st = true -> cascade_ok (render_stmt st) = true ->
-                 line_step (a, calls) (render_stmt st) = Some (a, append_calls calls (subst_chains a (stmt_chains st)))).
+                 line_step_gen upd (a, calls) (render_stmt st) = Some (a, upd calls (subst_chains a (stmt_chains st)))).
   { intros Hs Hc. pose proof (gate_stmt st Hs Hwf) as Hg. unfold cascade_ok in Hc.
     apply andb_true_iff in Hc as [Hc H4]. apply andb_true_iff in Hc as [Hc H3]. apply andb_true_iff in Hc as [H1 H2].
-    apply negb_true_iff in H1, H2. unfold line_step. rewrite H1, H2.
+    apply negb_true_iff in H1, H2. unfold line_step_gen. rewrite H1, H2.
     destruct (associate_re (render_stmt st)); [discriminate|].
     destruct (goto_rewrite false [] (render_stmt st)); [discriminate|].
     pose proof (raw_stmt st Hs Hwf Hplain) as Hraw.
     destruct (call_gate (render_stmt st)).
-    - unfold add_calls. now rewrite raw_calls_subst, Hraw.
-    - destruct Hg as [Hg|Hg]; [discriminate|]. now rewrite Hg. }
+    - unfold add_gen. now rewrite raw_calls_subst, Hraw.
+    - destruct Hg as [Hg|Hg]; [discriminate|]. rewrite Hg. cbn [subst_chains flat_map]. now rewrite Hnil. }
   destruct st as [lab sp f|lab d|lab sp c d|sp pairs| |lab sp body|labels e]; cbn [seg_stmt step_ok env_after] in *;
     try (apply Hseg; [reflexivity|exact Hstep]).
   - (* ASSOCIATE *)
-    rewrite (assoc_step a calls sp pairs Hwf Hstep). unfold add_calls.
+    rewrite (assoc_step_gen upd a calls sp pairs Hwf Hstep). unfold add_gen.
     rewrite raw_calls_subst, (raw_stmt (SAssoc sp pairs) eq_refl Hwf Hplain). reflexivity.
   - (* END ASSOCIATE *)
-    rewrite end_assoc_step. cbn [subst_chains flat_map append_calls].
+    rewrite end_assoc_step. cbn [subst_chains flat_map]. rewrite Hnil.
     destruct (rev a) as [|x ra] eqn:Er.
     + exfalso. apply (Hend eq_refl). apply (f_equal (@rev _)) in Er. now rewrite rev_involutive in Er.
     + now rewrite (rev_removelast a x ra Er).
-  - (* FORMAT *) cbn [subst_chains flat_map append_calls]. cbn [wf_stmt] in Hwf.
+  - (* FORMAT *) cbn [subst_chains flat_map]. rewrite Hnil. cbn [wf_stmt] in Hwf.
     apply andb_true_iff in Hwf as [Hwf Hnl]. apply andb_true_iff in Hwf as [Hl _]. apply negb_true_iff in Hnl.
-    exact (format_inert lab sp body (a, calls) Hl Hnl).
+    exact (format_inert_gen upd lab sp body (a, calls) Hl Hnl).
   - (* computed GO TO *)
     apply andb_true_iff in Hstep as [Hc Hg]. apply andb_true_iff in Hc as [Hc H3]. apply andb_true_iff in Hc as [H1 H2].
-    apply negb_true_iff in H1, H2. unfold line_step. rewrite H1, H2.
+    apply negb_true_iff in H1, H2. unfold line_step_gen. rewrite H1, H2.
     destruct (associate_re (render_stmt (SGoto labels e))); [discriminate|].
     destruct (goto_rewrite false [] (render_stmt (SGoto labels e))) as [line'|]; [|discriminate].
     apply str_eqb_eq in Hg. subst line'.
     cbn [wf_stmt] in Hwf. apply andb_true_iff in Hwf as [_ Hsegs].
     pose proof (raw_goto e Hsegs) as Hraw. pose proof (gate_goto e Hsegs) as Hgate.
     destruct (call_gate (render_segs (goto_segs e))).
-    + unfold add_calls. rewrite raw_calls_subst, Hraw. reflexivity.
-    + destruct Hgate as [Hgate|Hgate]; [discriminate|]. unfold stmt_chains. now rewrite Hgate.
+    + unfold add_gen. rewrite raw_calls_subst, Hraw. reflexivity.
+    + destruct Hgate as [Hgate|Hgate]; [discriminate|]. unfold stmt_chains. rewrite Hgate. cbn [subst_chains flat_map]. now rewrite Hnil.
 Qed.
+
+Lemma line_step_stmt (a : assocs) st calls : wf_stmt st = true -> plain_ok st = true -> step_ok st = true ->
+  (st = SEndAssoc -> a <> []) ->
+  line_step (a, calls) (render_stmt st) = Some (env_after a st, append_calls calls (subst_chains a (unit_chains st))).
+Proof. exact (line_step_stmt_gen append_calls a st calls (fun c => eq_refl)). Qed.
 
 (* C08_raw under ASSOCIATE: with the associations [a] in force the chains collected from a statement are
    those of C08_raw with a leading associate name replaced by its selector's chain (the rest
@@ -165,23 +226,32 @@ Proof.
   change (removelast (x :: y :: l)) with (x :: removelast (y :: l)). cbn [length] in *. lia.
 Qed.
 
-Lemma run_unit ss : forall (a : assocs) calls,
+Lemma run_unit_gen (upd : appender) : (forall c, upd c [] = c) -> (forall c x y, upd c (x ++ y) = upd (upd c x) y) ->
+  forall ss (a : assocs) calls,
   forallb wf_stmt ss = true -> forallb plain_ok ss = true -> forallb step_ok ss = true -> nest_ok (length a) ss = true ->
-  run_lines (a, calls) (map render_stmt ss) = Some (fold_left env_after ss a, append_calls calls (model_chains a ss)).
+  run_lines_gen upd (a, calls) (map render_stmt ss) = Some (fold_left env_after ss a, upd calls (model_chains a ss)).
 Proof.
-  induction ss as [|st ss IH]; intros a calls Hwf Hp Hs Hn; [reflexivity|].
+  intros Hnil Happ.
+  induction ss as [|st ss IH]; intros a calls Hwf Hp Hs Hn; [cbn [map run_lines_gen model_chains fold_left]; now rewrite Hnil|].
   cbn [forallb] in *. apply andb_true_iff in Hwf as [Hw Hwf]. apply andb_true_iff in Hp as [Hp1 Hp].
-  apply andb_true_iff in Hs as [Hs1 Hs]. cbn [map run_lines model_chains].
+  apply andb_true_iff in Hs as [Hs1 Hs]. cbn [map run_lines_gen model_chains].
   assert (Hend : st = SEndAssoc -> a <> []).
   { intros -> E. subst a. cbn in Hn. discriminate. }
-  pose proof (line_step_stmt a st calls Hw Hp1 Hs1 Hend) as Hstep.
+  pose proof (line_step_stmt_gen upd a st calls Hnil Hw Hp1 Hs1 Hend) as Hstep.
   assert (Hn' : nest_ok (length (env_after a st)) ss = true).
   { destruct st; cbn [env_after nest_ok] in *; try exact Hn.
     - rewrite app_length. cbn [length]. now rewrite Nat.add_1_r.
     - pose proof (removelast_length a) as Hl. unfold assocs, batch, aenv in *. destruct (length a) as [|n] eqn:El; [discriminate|].
       replace (length (removelast a)) with n by lia. exact Hn. }
-  pose proof (IH (env_after a st) (append_calls calls (subst_chains a (unit_chains st))) Hwf Hp Hs Hn') as E.
-  rewrite Hstep. cbv beta iota. rewrite append_calls_app. exact E.
+  pose proof (IH (env_after a st) (upd calls (subst_chains a (unit_chains st))) Hwf Hp Hs Hn') as E.
+  rewrite Hstep. cbv beta iota. rewrite Happ. exact E.
+Qed.
+
+Lemma run_unit ss : forall (a : assocs) calls,
+  forallb wf_stmt ss = true -> forallb plain_ok ss = true -> forallb step_ok ss = true -> nest_ok (length a) ss = true ->
+  run_lines (a, calls) (map render_stmt ss) = Some (fold_left env_after ss a, append_calls calls (model_chains a ss)).
+Proof.
+  intros a calls. rewrite run_lines_eq. exact (run_unit_gen append_calls (fun c => eq_refl) append_calls_app ss a calls).
 Qed.
 
 (* ------------------------------------------------------------------ resolution *)
@@ -223,8 +293,28 @@ Proof.
   - destruct (assoc_get x ctx) as [e|] eqn:Ex; [|reflexivity].
     pose proof (assoc_get_in x ctx e Ex) as Hin. rewrite forallb_forall in Hf. specialize (Hf _ Hin). cbn [snd] in Hf.
     unfold type_ctx in *.
-    destruct e as [id t|id|t pt|t]; cbn [ent_flags_ok] in Hf; subst; try reflexivity;
+    destruct e as [id t|id|t pt sc|t]; cbn [ent_flags_ok] in Hf;
+      try (apply andb_true_iff in Hf as [Hf _]); subst; try reflexivity;
       (destruct (assoc_get t (st_types tb)) as [c|] eqn:Et; [|reflexivity]; apply IH; now apply (Hctx t)).
+Qed.
+
+(* what a chain resolves to comes out of a table: its flags are in order *)
+Lemma find_chain_flags tb : tb_ok tb = true -> forall ch ctx e, labels_ok ctx = true ->
+  find_chain tb ctx ch = Some e -> ent_flags_ok e = true.
+Proof.
+  intros Htb. unfold tb_ok in Htb. apply andb_true_iff in Htb as [_ Hty].
+  assert (Hctx : forall t c, type_ctx tb t = Some c -> labels_ok c = true).
+  { intros t c H. unfold type_ctx in H. apply assoc_get_in in H. rewrite forallb_forall in Hty. exact (Hty _ H). }
+  induction ch as [|x rest IH]; intros ctx e Hok H; [discriminate|].
+  pose proof Hok as Hok'. unfold labels_ok in Hok. apply andb_true_iff in Hok as [Hu Hf].
+  cbn [find_chain] in H. rewrite (labels_get_unique x ctx Hu) in H.
+  assert (Hget : forall e0, assoc_get x ctx = Some e0 -> ent_flags_ok e0 = true).
+  { intros e0 E0. rewrite forallb_forall in Hf. exact (Hf _ (assoc_get_in x ctx e0 E0)). }
+  destruct rest as [|y rest]; [now apply Hget|].
+  destruct (assoc_get x ctx) as [e0|]; [|discriminate].
+  destruct e0 as [id t|id|t pt sc|t]; try discriminate;
+    try (destruct pt; [|discriminate]);
+    (destruct (type_ctx tb t) as [c|] eqn:Et; [|discriminate]; exact (IH c e (Hctx t c Et) H)).
 Qed.
 
 (* what a recorded chain contributes after correlate, as the Spec reads the tables *)
@@ -241,6 +331,12 @@ Lemma resolve_one_den tb ch : tb_ok tb = true ->
 Proof.
   intros Htb. pose proof Htb as Htb'. unfold tb_ok in Htb'. apply andb_true_iff in Htb' as [Hs _].
   pose proof (find_denote tb Htb ch (st_scope tb) Hs) as H. unfold resolve_one, den_names. rewrite <- H.
+  assert (Ec : find_call tb ch = find_chain tb (st_scope tb) ch).
+  { unfold find_call. destruct (find_chain tb (st_scope tb) ch) as [e|] eqn:Ef; [|reflexivity].
+    pose proof (find_chain_flags tb Htb ch (st_scope tb) e Hs Ef) as Hfl.
+    destruct e as [id t|id|t pt sc|t]; try reflexivity. cbn [ent_flags_ok] in Hfl. apply andb_true_iff in Hfl as [_ Hsc].
+    apply negb_true_iff in Hsc. subst sc. now destruct ch as [|x [|y r]]. }
+  rewrite Ec.
   destruct (find_chain tb (st_scope tb) ch) as [e|]; [destruct e; reflexivity|reflexivity].
 Qed.
 
@@ -564,36 +660,90 @@ Proof.
   - intros b k v Hb Hin. apply in_removelast in Hb. exact (Hf b k v Hb Hin).
 Qed.
 
+(* the candidates after correlate *)
+Definition proc_id (r : option entity) : option str :=
+  match r with Some (EFunc id _) => Some id | Some (EProc id) => Some id | _ => None end.
+
+Lemma resolve_named_in tb named : forall acc p,
+  In p (resolve_named tb named acc) <->
+  In p acc \/ exists ch, In ch named /\ proc_id (find_chain tb (st_scope tb) ch) = Some p.
+Proof.
+  induction named as [|c named IH]; intros acc p; cbn [resolve_named].
+  - split; [now left|intros [H|(ch & [] & _)]; exact H].
+  - assert (Skip : proc_id (find_chain tb (st_scope tb) c) = None ->
+                   (In p (resolve_named tb named acc) <->
+                    In p acc \/ exists ch, In ch (c :: named) /\ proc_id (find_chain tb (st_scope tb) ch) = Some p)).
+    { intros En. rewrite IH. split.
+      - intros [H|(ch & Hin & Hr)]; [now left|right; exists ch; split; [now right|exact Hr]].
+      - intros [H|(ch & [<-|Hin] & Hr)]; [now left|congruence|right; eauto]. }
+    assert (Take : forall id, proc_id (find_chain tb (st_scope tb) c) = Some id ->
+                   (In p (if str_in id acc then resolve_named tb named acc else resolve_named tb named (acc ++ [id])) <->
+                    In p acc \/ exists ch, In ch (c :: named) /\ proc_id (find_chain tb (st_scope tb) ch) = Some p)).
+    { intros id E. destruct (str_in id acc) eqn:Ea.
+      - rewrite IH. split.
+        + intros [H|(ch & Hin & Hr)]; [now left|right; exists ch; split; [now right|exact Hr]].
+        + intros [H|(ch & [<-|Hin] & Hr)]; [now left| |right; eauto].
+          left. rewrite E in Hr. injection Hr as <-. now apply str_in_In.
+      - rewrite IH, in_app_iff. split.
+        + intros [[H|[<-|[]]]|(ch & Hin & Hr)]; [now left|right; exists c; split; [now left|exact E]|right; exists ch; split; [now right|exact Hr]].
+        + intros [H|(ch & [<-|Hin] & Hr)]; [left; now left| |right; eauto].
+          left. right. rewrite E in Hr. injection Hr as <-. now left. }
+    destruct (find_chain tb (st_scope tb) c) as [[id t|id|t pt sc|t]|]; cbn [proc_id] in Skip, Take;
+      [exact (Take id eq_refl)|exact (Take id eq_refl)|exact (Skip eq_refl)|exact (Skip eq_refl)|exact (Skip eq_refl)].
+Qed.
+
+Lemma resolve_named_nodup tb named : forall acc, NoDup acc -> NoDup (resolve_named tb named acc).
+Proof.
+  induction named as [|c named IH]; intros acc H; cbn [resolve_named]; [exact H|].
+  assert (Take : forall id, NoDup (if str_in id acc then resolve_named tb named acc else resolve_named tb named (acc ++ [id]))).
+  { intros id. destruct (str_in id acc) eqn:Ea; [now apply IH|]. apply IH. apply nodup_snoc; [exact H|].
+    intros Hin. apply str_in_In in Hin. congruence. }
+  destruct (find_chain tb (st_scope tb) c) as [[id t|id|t pt sc|t]|]; [apply Take|apply Take|now apply IH|now apply IH|now apply IH].
+Qed.
+
+(* a chain resolves to a procedure exactly when it denotes one *)
+Lemma proc_id_den tb ch p : tb_ok tb = true ->
+  (proc_id (find_chain tb (st_scope tb) ch) = Some p <-> denote tb (st_scope tb) ch = DProc p).
+Proof.
+  intros Htb. pose proof Htb as Htb'. unfold tb_ok in Htb'. apply andb_true_iff in Htb' as [Hs _].
+  rewrite <- (find_denote tb Htb ch (st_scope tb) Hs).
+  destruct (find_chain tb (st_scope tb) ch) as [[id t|id|t pt sc|t]|]; cbn [proc_id found_den ent_den];
+    split; intros H; try discriminate; injection H as <-; reflexivity.
+Qed.
+
 Theorem exact tb ss srcs :
   map mask_quotes srcs = map render_stmt ss -> resolvable tb ss = true ->
   exists l, recorded tb srcs = Some l /\ NoDup l /\ forall p, In p l <-> In p (calls_of tb ss).
 Proof.
   intros Hsrc Hres. unfold resolvable in Hres.
   repeat match goal with H : _ && _ = true |- _ => apply andb_true_iff in H as [H ?] end.
-  rename H into Hinner, H0 into Hintr, H1 into Htb, H2 into Hnames, H3 into Hnest, H4 into Hstep, H5 into Hplain.
+  rename H into Hinner, H0 into Hkw, H1 into Htb, H2 into Hnames, H3 into Hnest, H4 into Hstep, H5 into Hplain.
   rename Hres into Hwf.
-  apply negb_true_iff in Hintr.
+  apply negb_true_iff in Hkw.
   pose proof (run_unit ss [] [] Hwf Hplain Hstep Hnest) as Hrun.
-  unfold recorded, unit_raw_calls. rewrite run_stmts_lines, Hsrc.
+  pose proof (run_unit_gen append_named (fun c => eq_refl) append_named_app ss [] [] Hwf Hplain Hstep Hnest) as Hrunn.
+  unfold recorded, unit_raw_calls, unit_named_calls. rewrite run_stmts_lines, run_named_lines, Hsrc.
   change (run_lines ([], []) (map render_stmt ss)) with (run_lines (([] : assocs), []) (map render_stmt ss)).
-  cbn [length] in Hrun. rewrite Hrun.
-  eexists. split; [reflexivity|]. split; [apply resolve_loop_nodup; constructor|].
+  change (run_lines_gen append_named ([], []) (map render_stmt ss))
+    with (run_lines_gen append_named (([] : assocs), []) (map render_stmt ss)).
+  cbn [length] in Hrun, Hrunn. rewrite Hrun, Hrunn.
+  eexists. split; [reflexivity|]. split; [apply resolve_named_nodup, resolve_loop_nodup; constructor|].
   unfold calls_of. rewrite calls_of_env.
   (* the two bridges on the whole unit, under the associations in force *)
   assert (B : forall ss env, forallb wf_stmt ss = true -> forallb step_ok ss = true -> assoc_names_ok ss = true -> env_kw_free env ->
-              (forall ch, In ch (model_chains env ss) -> keep ch = true -> In ch (env_refs env ss)) /\
+              (forall ch, In ch (model_chains env ss) -> (exists kw, In kw grammar_keywords /\ ch = [kw]) \/ In ch (env_refs env ss)) /\
               (forall ch, In ch (env_refs env ss) -> In ch (env_inner env ss) \/ In ch (model_chains env ss))).
   { clear. induction ss as [|st ss IH]; intros env Hwf Hstep Hnames Hfree; [split; intros ch []|].
     cbn [forallb assoc_names_ok] in *. apply andb_true_iff in Hwf as [Hw Hwf]. apply andb_true_iff in Hstep as [Hs Hstep].
     apply andb_true_iff in Hnames as [Hn Hnames].
     assert (Hfree' : env_kw_free (env_after env st)) by (apply env_after_kw_free; [exact Hfree|destruct st; try exact I; exact Hn]).
     destruct (IH (env_after env st) Hwf Hstep Hnames Hfree') as [I1 I2]. cbn [model_chains env_refs env_inner]. split.
-    - intros ch' Hin Hk. apply in_app_iff in Hin as [Hin|Hin]; apply in_app_iff; [left|right; now apply I1].
-      apply subst_chains_in in Hin as (ch & Hch & He).
-      destruct (unit_chains_refs st ch Hw Hs Hch) as [(kw & Hkw & ->)|Hr].
-      + rewrite (expand_keyword env kw Hfree Hkw) in He. injection He as <-.
-        pose proof (keyword_not_kept kw Hkw) as Hnk. rewrite (lower_keywords kw Hkw) in Hnk. congruence.
-      + apply subst_chains_in. eauto.
+    - intros ch' Hin. apply in_app_iff in Hin as [Hin|Hin].
+      + apply subst_chains_in in Hin as (ch & Hch & He).
+        destruct (unit_chains_refs st ch Hw Hs Hch) as [(kw & Hkw & ->)|Hr].
+        * rewrite (expand_keyword env kw Hfree Hkw) in He. injection He as <-. left. eauto.
+        * right. apply in_app_iff. left. apply subst_chains_in. eauto.
+      + destruct (I1 ch' Hin) as [Hk|Hr]; [now left|right; apply in_app_iff; now right].
     - intros ch' Hin. apply in_app_iff in Hin as [Hin|Hin].
       + apply subst_chains_in in Hin as (ch & Hch & He).
         destruct (stmt_refs_chains st ch Hw Hs Hch) as [Hi|Hc].
@@ -601,29 +751,40 @@ Proof.
         * right. apply in_app_iff. left. apply subst_chains_in. eauto.
       + destruct (I2 ch' Hin) as [Hi|Hc]; [left|right]; apply in_app_iff; now right. }
   assert (Hfree0 : env_kw_free []) by (intros b k v []).
-  destruct (B ss [] Hwf Hstep Hnames Hfree0) as [B1 B2'].
+  destruct (B ss [] Hwf Hstep Hnames Hfree0) as [B1' B2'].
   set (chains := model_chains [] ss) in *. set (refs := env_refs [] ss) in *.
+  (* a keyword of the grammar denotes no procedure (region 3 excluded) *)
+  assert (K : forall kw, In kw grammar_keywords -> is_proc_den (denote tb (st_scope tb) [kw]) = false).
+  { intros kw Hk. unfold region_keyword_named in Hkw.
+    destruct (is_proc_den (denote tb (st_scope tb) [kw])) eqn:E; [|reflexivity].
+    assert (Ht : existsb (fun kw => is_proc_den (denote tb (st_scope tb) [kw])) grammar_keywords = true)
+      by (apply existsb_exists; exists kw; split; [exact Hk|exact E]).
+    congruence. }
+  assert (B1 : forall ch, In ch chains -> keep ch = true -> In ch refs).
+  { intros ch Hin Hk. destruct (B1' ch Hin) as [(kw & Hkw' & ->)|Hr]; [|exact Hr].
+    pose proof (keyword_not_kept kw Hkw') as Hnk. rewrite (lower_keywords kw Hkw') in Hnk. congruence. }
   assert (B2 : forall ch, In ch refs -> classify0 tb ch <> [] -> In ch chains).
   { intros ch Hin Hne. destruct (B2' ch Hin) as [Hi|Hc]; [|exact Hc]. exfalso. apply Hne.
     rewrite forallb_forall in Hinner. specialize (Hinner ch Hi). destruct (classify0 tb ch); [reflexivity|discriminate]. }
-  assert (R2 : forall ch, In ch refs -> classify0 tb ch <> [] -> keep ch = true).
-  { intros ch Hin Hne. unfold keep. destruct (str_in (last_of ch) INTRINSICS) eqn:Ei; [|reflexivity]. exfalso.
-    unfold classify0 in Hne. rewrite Ei in Hne.
-    destruct (denote tb (st_scope tb) ch) as [id| | |] eqn:Ed; try (now apply Hne).
-    unfold region_intrinsic_named, some_refs in Hintr. rewrite some_refs_env in Hintr. fold refs in Hintr.
-    assert (Ht : existsb (fun ch => is_proc_den (denote tb (st_scope tb) ch) && str_in (last_of ch) INTRINSICS) refs = true).
-    { apply existsb_exists. exists ch. split; [exact Hin|]. now rewrite Ed, Ei. }
-    congruence. }
-  intros p. unfold resolve_calls. rewrite resolve_loop_in, in_flat_map. split.
-  - intros [[]|(ch & Hin & Hr)]. apply append_calls_in in Hin as [[]|[Hin Hk]].
-    exists ch. split; [now apply B1|]. rewrite (classify0_keep tb ch Hk).
-    rewrite (resolve_one_den tb ch Htb) in Hr. destruct (den_names tb ch) as [|n l] eqn:E; [discriminate|].
-    injection Hr as <-. now left.
-  - intros (ch & Hin & Hp). right.
+  intros p. unfold resolve_calls. rewrite resolve_named_in, resolve_loop_in, in_flat_map. split.
+  - intros [[[]|(ch & Hin & Hr)]|(ch & Hin & Hr)].
+    + apply append_calls_in in Hin as [[]|[Hin Hk]].
+      exists ch. split; [now apply B1|]. rewrite (classify0_keep tb ch Hk).
+      rewrite (resolve_one_den tb ch Htb) in Hr. destruct (den_names tb ch) as [|n l] eqn:E; [discriminate|].
+      injection Hr as <-. now left.
+    + apply append_named_in in Hin as [[]|[Hin Hk]]. apply (proc_id_den tb ch p Htb) in Hr.
+      destruct (B1' ch Hin) as [(kw & Hkw' & ->)|Href].
+      * pose proof (K kw Hkw') as Hf. rewrite Hr in Hf. discriminate.
+      * exists ch. split; [exact Href|]. unfold classify0. rewrite Hr. now left.
+  - intros (ch & Hin & Hp).
     assert (Hne : classify0 tb ch <> []) by (intros E; rewrite E in Hp; contradiction).
-    pose proof (R2 ch Hin Hne) as Hk. pose proof (B2 ch Hin Hne) as Hc.
-    exists ch. split; [now apply append_calls_cover|].
-    rewrite (resolve_one_den tb ch Htb). rewrite (classify0_keep tb ch Hk) in Hp.
-    unfold den_names in *. destruct (denote tb (st_scope tb) ch); cbn in Hp |- *; try contradiction;
-      destruct Hp as [<-|[]]; reflexivity.
+    pose proof (B2 ch Hin Hne) as Hc.
+    destruct (keep ch) eqn:Hk.
+    + left. right. exists ch. split; [now apply append_calls_cover|].
+      rewrite (resolve_one_den tb ch Htb). rewrite (classify0_keep tb ch Hk) in Hp.
+      unfold den_names in *. destruct (denote tb (st_scope tb) ch); cbn in Hp |- *; try contradiction;
+        destruct Hp as [<-|[]]; reflexivity.
+    + right. exists ch. split; [now apply append_named_cover|]. apply (proc_id_den tb ch p Htb).
+      unfold keep in Hk. apply negb_false_iff in Hk. unfold classify0 in Hp. rewrite Hk in Hp.
+      destruct (denote tb (st_scope tb) ch); cbn in Hp; try contradiction. destruct Hp as [<-|[]]. reflexivity.
 Qed.
